@@ -227,12 +227,15 @@ package jsonrpc2
 //@   assume nomethodnotfoundcodeinerror != "1"
 //@   assert at call NewResponse: @echoes-request-id $0 == old(req.ID)
 //@   assert at call NewResponse: @unknown-method-code (errIs(old(err), ErrNotHandled) || errIs(old(err), ErrMethodNotFound)) ==> errIs($2, ErrMethodNotFound)
-//@   assert at call write: @unindexed-before-responding calls(unindex) == 1 && calls(respond) == 0 && $2 == iface(callResult(mkResponse, 1, 0))
+//@   assert at call write: @unindexed-before-responding calls(unindex) == 1 && calls(respond) == 0
+// What is written is the response built for this request - or, when the handler's result cannot be encoded, an error
+// response built here, with the request's id (defect F28: such a call used to go unanswered).
+//@   assert at call write: @the-response-written-echoes-the-request-id (callResult(mkResponse, 1, 1) == nil ==> $2 == iface(callResult(mkResponse, 1, 0))) && (callResult(mkResponse, 1, 1) != nil ==> typeIs($2, *Response) && $2.(*Response) != nil && $2.(*Response).ID == req.ID && $2.(*Response).Error != nil)
 // The response goes out even when the request's own context has been cancelled (a cancelled call still gets its one
 // answer): the write is given a context that is never done, not the request context.
 //@   assert at call write: @the-answer-is-written-even-if-the-request-was-cancelled typeIs($1, notDone)
-//@   ensures @calls-are-answered-at-most-once isCall ==> calls(respond) <= 1 && calls(unindex) == 1 && calls(mkResponse) == 1
-//@   ensures @answered-unless-unencodable isCall && callResult(mkResponse, 1, 1) == nil ==> calls(respond) == 1
+// (the property's own words: each request that carries an id receives exactly one response)
+//@   ensures @calls-are-answered-exactly-once isCall ==> calls(respond) == 1 && calls(unindex) == 1 && calls(mkResponse) == 1
 //@   ensures @notifications-are-never-answered !isCall ==> calls(respond) == 0 && calls(unindex) == 0 && calls(mkResponse) == 0
 //@   ensures @slot-released-once calls(releaseSlot) == 1
 
